@@ -4,7 +4,10 @@
 From Coq Require Import ZArith List Bool String.
 From VQ Require Import Num Model.Vec Model.Core Model.Machine Model.Inventory Model.Params Proofs.ParamsProofs Proofs.CorePure Glue.CoreGlue Glue.InventoryFacts.
 From VQ Require Import Glue.Pin_w_simvq Glue.Pin_w_rpq Glue.Pin_w_fsq Glue.Pin_w_lfq Glue.Pin_w_rfsq Glue.Pin_w_rlfq Glue.Pin_w_rsvq Glue.Pin_o_rpq_eval Glue.Pin_p_simvq_codebook.
+From VQ Require Import Glue.Pin_fp_C20.
 Import ListNotations.
+
+(* implicit *)
 
 (* implicit *)
 Theorem C20_untouched_by_every_history :
@@ -125,6 +128,11 @@ Theorem C20_rlfq_no_write_site :
   w_rlfq.w_rlfq = pinned_w_rlfq.
 Proof. exact (@pin_w_rlfq). Qed.
 Print Assumptions C20_rlfq_no_write_site.
+
+Theorem C20_tie_source_footprint :
+  fp_C20.fp_C20 = pinned_fp_C20.
+Proof. exact (@Pin_fp_C20.pin_fp_C20). Qed.
+Print Assumptions C20_tie_source_footprint.
 
 (* instances: the frozen SimVQ codebook / the RPQ projection / the FSQ and LFQ tables keep their value through every
    history of forwards (no write site) and optimiser steps (not parameters) *)
